@@ -319,3 +319,50 @@ def sample_load_phase_line(rng, result):
         return None
     lo, hi = rng.choice(windows)
     return rng.randrange(lo, hi)
+
+
+_WARM = False
+
+
+def warm_up():
+    """
+    Run a fixed battery of tool invocations once per process before anything
+    is counted.  Several libraries fill process-global caches the first time
+    a code path runs (ruamel's versioned implicit resolvers, argparse, re);
+    the traced-line count of a run -- which SIGINT positions are expressed in
+    -- would otherwise depend on which scenarios happened to run earlier in
+    the same worker process.
+    """
+    global _WARM
+    if _WARM:
+        return
+    _WARM = True
+    from sim import gen_args
+    import random as _random
+    rng = _random.Random("warm-up")
+    battery = []
+    for _ in range(6):
+        battery.append(gen_args.gen_set(rng))
+        battery.append(gen_args.gen_merge(rng))
+        battery.append(gen_args.gen_rotate(rng))
+    for label in gen_args.SET_FAILURES:
+        battery.append(gen_args.gen_set(rng, label=label))
+    for label in gen_args.MERGE_FAILURES:
+        battery.append(gen_args.gen_merge(rng, label=label))
+    for recipe in battery:
+        try:
+            execute(recipe)
+            execute(recipe, count_lines=True)
+        except Exception:  # pylint: disable=broad-except
+            pass
+    for tool, argv, files in (
+            ("yaml-get", ["-p", "a", "/sim/w/d.yaml"], {"/sim/w/d.yaml": "a: [1, {b: c}]\n"}),
+            ("yaml-paths", ["-s", "=1", "-L", "/sim/w/d.yaml"], {"/sim/w/d.yaml": "a: 1\n---\nb: &x 1\nc: *x\n"}),
+            ("yaml-validate", ["-v", "/sim/w/d.yaml"], {"/sim/w/d.yaml": "a: [1\n"}),
+            ("yaml-diff", ["-s", "/sim/w/d.yaml", "/sim/w/e.yaml"], {"/sim/w/d.yaml": "a: [1, 2]\nb: {c: 1}\n", "/sim/w/e.yaml": "a: [2]\nb: {c: 2}\n"})):
+        recipe = {"tool": tool, "argv": argv, "files": files}
+        try:
+            execute(recipe)
+            execute(recipe, count_lines=True)
+        except Exception:  # pylint: disable=broad-except
+            pass
